@@ -75,6 +75,10 @@ var opaqueModels = map[string]bool{
 	"(*github.com/go-logfmt/logfmt.Decoder).Value":                     true,
 	"(*github.com/go-logfmt/logfmt.Decoder).Err":                       true,
 	"strings.NewReader":                                                true,
+	"text/template.New":                                                true,
+	"(*text/template.Template).Option":                                 true,
+	"(*text/template.Template).Funcs":                                  true,
+	"(*text/template.Template).Parse":                                  true,
 	"go.opentelemetry.io/collector/pdata/pcommon.NewMap":               true,
 	"(go.opentelemetry.io/collector/pdata/pcommon.TraceID).IsEmpty":    true,
 	"(go.opentelemetry.io/collector/pdata/pcommon.SpanID).IsEmpty":     true,
